@@ -14,6 +14,8 @@ from .values import BYTES, BV8, builtin_exc_ancestors, canon_exc
 from . import smt
 
 RECHECK = os.environ.get("VERIF_TIER") == "thorough"
+RECHECK_PER_ID = int(os.environ.get("VERIF_RECHECK_PER_ID", "6"))
+_RC_SEEN = {}
 UNROLL_LIMIT = 600
 MAX_DEPTH = 60
 
@@ -114,6 +116,7 @@ class Interp:
         self._loop_ord_cache = {}
         self.path_errors = []
         self.recheck = {}
+        self._rc_seen = {}
         self._fparts = {}
         self.sym_ext = {}
         self.begin_path([])
@@ -339,8 +342,10 @@ class Interp:
             model = self._model_of(self.solver.model())
         elif r == z3.unsat:
             status = "discharged"
-            if RECHECK:
-                # thorough tier: second solver on every discharged VC
+            if RECHECK and _RC_SEEN.get(oid, 0) < RECHECK_PER_ID:
+                # thorough tier: second solver on the discharged VC (every obligation id, up to RECHECK_PER_ID of its path
+                # instances per worker process - the instances of one id differ only in the path condition)
+                _RC_SEEN[oid] = _RC_SEEN.get(oid, 0) + 1
                 rc = smt.recheck_unsat(self.solver)
                 self.recheck[rc] = self.recheck.get(rc, 0) + 1
                 backend = {"agree": "z3+cvc5", "unknown": "z3 (cvc5: unknown)", "DISAGREE": "z3-unsat/cvc5-SAT"}[rc]
